@@ -43,3 +43,17 @@ package binary
 //gvc:  ensures word: err == nil ==> v == spec_be64(r.#data, old(r.#pos)) && r.#pos == old(r.#pos) + 8 && r.#pos <= r.#n
 //gvc:  ensures failed: err != nil ==> v == 0
 //gvc:end
+
+// ReadUntilFromBufioReader (C12: long paths are decoded, also with the
+// checksum skipped and in resolve-undo records): a field of any length is
+// read -- the function never fails for want of buffer space -- and the
+// delimiter is dropped from what it returns.
+//gvc:func ReadUntilFromBufioReader
+//gvc:  props C12
+//gvc:  theory int
+//gvc:  opt coarse
+//gvc:  opt frame args
+//gvc:  requires nn: r != nil
+//gvc:  results value err
+//gvc:  ensures anylen: err != bufio.ErrBufferFull
+//gvc:end
